@@ -64,7 +64,7 @@ Definition Rc (c : N) (mf : bytes) (rc : list (bytes * bool)) (n g : nat) (a : a
 
 (** events without notes or hand-offs do not move either checker *)
 Definition quiet_ev (e : event) : bool :=
-  match e with Reply _ | Closed | EStuck => true | _ => false end.
+  match e with Reply _ | Closed | EStuck | Note NBad | Note NBadReset | Note NBadClose => true | _ => false end.
 Definition quiet (evs : list event) : Prop := forallb quiet_ev evs = true.
 
 Section Proofs.
@@ -94,7 +94,8 @@ Lemma quiet_trace evs a : quiet evs -> trace_run o evs a = Some a.
 Proof.
   unfold quiet. induction evs as [|e r IH]; simpl; [reflexivity|].
   intros H. apply andb_true_iff in H as [He Hr].
-  destruct e; try discriminate; simpl; apply IH; exact Hr.
+  destruct e as [c|e m| | |n]; try discriminate; try (simpl; apply IH; exact Hr);
+    destruct n; try discriminate; simpl; apply IH; exact Hr.
 Qed.
 
 (** a quiet list may contain replies, which the queue checker looks at in some states *)
@@ -105,7 +106,8 @@ Lemma quiet_queue_idle evs : quiet evs -> queue_run o evs QIdle = Some QIdle.
 Proof.
   unfold quiet. induction evs as [|e r IH]; simpl; [reflexivity|].
   intros H. apply andb_true_iff in H as [He Hr].
-  destruct e; try discriminate; simpl; apply IH; exact Hr.
+  destruct e as [c|e m| | |n]; try discriminate; try (simpl; apply IH; exact Hr);
+    destruct n; try discriminate; simpl; apply IH; exact Hr.
 Qed.
 
 Lemma quiet_app a b : quiet a -> quiet b -> quiet (a ++ b).
@@ -146,10 +148,10 @@ Lemma on_error_spec s h ev so : on_error s h = (ev, so) ->
 Proof.
   unfold on_error. destruct (Nat.ltb MAXBADCMDS (badcmds s)).
   - intros H; inversion H; subst. split; [reflexivity|]. split.
-    + intros c [Hc|[Hc|[]]]; inversion Hc; subst; lia.
+    + intros c Hin; simpl in Hin; repeat (destruct Hin as [Hin|Hin]; [inversion Hin; subst; lia|]); contradiction.
     + intros s' Hs. discriminate.
   - destruct h; intros H; inversion H; subst; (split; [reflexivity|]); (split;
-      [ intros c Hin; simpl in Hin; repeat (destruct Hin as [Hin|Hin]; [inversion Hin; subst; lia|]); contradiction
+      [ intros c Hin; simpl in Hin; repeat (destruct Hin as [Hin|Hin]; [try discriminate; inversion Hin; subst; lia|]); contradiction
       | intros s' Hs a Ha; inversion Hs; subst; try apply R_tarpit; exact Ha ]).
 Qed.
 
@@ -397,7 +399,7 @@ Proof.
     unfold quiet; cbn [forallb quiet_ev andb]; apply wait_for_quit_quiet.
 Qed.
 
-Lemma envelope_env_of f rc : envelope f rc = env_of (Some (f, good rc)).
+Lemma envelope_env_of lh f rc : envelope lh f rc = env_of lh (Some (f, good rc)).
 Proof.
   unfold envelope, env_of, good. rewrite map_map. reflexivity.
 Qed.
@@ -443,7 +445,7 @@ Proof.
   { destruct (a_phase a); try reflexivity; rewrite Hc in Hph; try discriminate; destruct Hph; discriminate. }
   set (k := qcount s2) in *.
   set (sq := {| rd := rd s2; comstate := comstate s2; qcount := S k; rcpts := rcpts s2; mailfrom := mailfrom s2 |}) in H.
-  destruct (data_loop f o (rd sq) _) as [de r'] eqn:Edl.
+  destruct (data_loop f o _ (rd sq) _) as [de r'] eqn:Edl.
   (* the abstract state after the boundary *)
   set (ab := {| a_phase := PHelo; a_txn := None; a_stored := 0 |}).
   assert (Htr1 : trace_run o [Note (NData k); Reply 354] a = Some a).
@@ -463,22 +465,25 @@ Proof.
             Irel (relayclient sf) /\ comstate sf = helo_state (esmtp sf)
             /\ Rc (comstate sf) (mailfrom sf) (rcpts sf) (rcptcount sf) (goodrcpt sf) ab).
   { exact (Hfree r'). }
-  destruct de as [msg sz|l|l|big l| |].
+  destruct de as [msg sz seen|l seen|l seen|big l|lw| |].
   - (* end of data *)
     destruct Hfree1 as (HIf & Hcf & HRf).
-    assert (Hho : trace_step o (Handoff (envelope (mailfrom (set_rd sq r')) (rcpts (set_rd sq r'))) msg) a = Some a).
+    assert (Hho : trace_step o (Handoff (envelope (o_liphost o) (mailfrom (set_rd sq r')) (rcpts (set_rd sq r'))) msg) a = Some a).
     { assert (Em : mailfrom (set_rd sq r') = fr) by (unfold set_rd, sq; cbn [mailfrom]; congruence).
       assert (Er : good (rcpts (set_rd sq r')) = rs) by (unfold set_rd, sq; cbn [rcpts]; congruence).
       cbn [trace_step]. rewrite Htxn, envelope_env_of, Em, Er, bytes_eqb_refl. reflexivity. }
     destruct (o_qq o k) eqn:Eqq.
     + inversion H; subst evs h s'. clear H. exists ab.
-      split. { change (trace_run o ([Note (NData k); Reply 354] ++ [Handoff (envelope (mailfrom (set_rd sq r')) (rcpts (set_rd sq r'))) msg; Note NBoundary; Reply 250]) a = Some ab).
+      split. { change (trace_run o ([Note (NData k); Reply 354] ++ [Handoff (envelope (o_liphost o) (mailfrom (set_rd sq r')) (rcpts (set_rd sq r'))) msg; Note NBoundary; Reply 250]) a = Some ab).
                rewrite trace_run_app, Htr1. cbn [trace_run]. rewrite Hho, Hbd. reflexivity. }
       split; [exact HIf|].
       split. { simpl. rewrite Eqq. reflexivity. }
       rewrite <- Hcf. exact HRf.
     + destruct (Nat.leb QQ_PERM_LO code && Nat.leb code QQ_PERM_HI);
         inversion H; subst evs h s'; clear H; exists ab;
+        (split; [cbn [trace_run trace_step]; rewrite Htxn, Ers, Hphr; reflexivity|]);
+        (split; [exact HIf|]); (split; [reflexivity|exact HRf]).
+    + inversion H; subst evs h s'; clear H; exists ab;
         (split; [cbn [trace_run trace_step]; rewrite Htxn, Ers, Hphr; reflexivity|]);
         (split; [exact HIf|]); (split; [reflexivity|exact HRf]).
     + inversion H; subst evs h s'; clear H; exists ab;
@@ -506,6 +511,13 @@ Proof.
         (split; [exact HIf|]); (split; [reflexivity|exact HRf]).
     + inversion H; subst evs h s'; clear H.
       exists a. split; [exact Htr1|]. split; [cbn [set_rd relayclient sq]; now rewrite G8|].
+      simpl. discriminate.
+  - (* a write to qmail-queue failed *)
+    destruct (drain_break f r' lw) as [[alive rerr] r2]. destruct (Hfree r2) as (HIf & Hcf & HRf).
+    destruct alive; cbn [negb] in H; inversion H; subst evs h s'; clear H.
+    + exists ab. split; [cbn [trace_run trace_step]; rewrite Htxn, Ers, Hphr; reflexivity|].
+      split; [exact HIf|]. split; [reflexivity|exact HRf].
+    + exists a. split; [exact Htr1|]. split; [cbn [set_rd relayclient sq]; now rewrite G8|].
       simpl. discriminate.
   - inversion H; subst evs h s'; clear H.
     exists a. split; [exact Htr1|]. split; [cbn [set_rd relayclient sq]; now rewrite G8|].
@@ -674,11 +686,11 @@ Qed.
 
 (** ---------- one round, then all rounds ---------- *)
 Lemma on_error_first s h ev so : on_error s h = (ev, so) -> h = HE2BIG \/ h = HEMSGSIZE ->
-  exists c rest, ev = Reply c :: rest /\ (400 <= c)%N /\ quiet rest.
+  queue_run o ev QFailed = Some QIdle.
 Proof.
   unfold on_error. intros H Hh. destruct (Nat.ltb MAXBADCMDS (badcmds s)).
-  - inversion H; subst. exists 550%N, [Closed]. split; [reflexivity|]. split; [lia|reflexivity].
-  - destruct Hh as [-> | ->]; inversion H; subst; eexists _, []; (split; [reflexivity|]); (split; [lia|reflexivity]).
+  - inversion H; subst. reflexivity.
+  - destruct Hh as [-> | ->]; inversion H; subst; reflexivity.
 Qed.
 
 Lemma R_set_rd s r a : R s a -> R (set_rd s r) a.
@@ -704,15 +716,16 @@ Proof.
       assert (Hqf : queue_run o (e ++ ev) QIdle = Some QIdle).
       { rewrite queue_run_app. destruct Hq as [Hq|[Hq Hh]]; rewrite Hq.
         - now apply quiet_queue_idle.
-        - destruct (on_error_first _ _ _ _ Hoe Hh) as (c & rest & -> & Hc & Hrest).
-          cbn [queue_run queue_step]. apply N.leb_le in Hc. rewrite Hc. now apply quiet_queue_idle. }
+        - exact (on_error_first _ _ _ _ Hoe Hh). }
       split; [rewrite Hqf; discriminate|].
       intros s' Hs. split; [|exact Hqf]. apply (Hkeep s' Hs). split; [exact HRc|exact HI]. }
     destruct h; try (destruct (on_error s1 _) as [ev so'] eqn:Eoe; inversion H; subst;
                      destruct Hpost as (Hq & HRc); apply (Hgen _ _ eq_refl); [left; exact Hq|exact HRc]).
     + (* H0 *)
-      inversion H; subst. destruct Hpost as (Hq & HRc). exists a'. split; [exact Htr|].
-      split; [rewrite Hq; discriminate|]. intros s' Hs. inversion Hs; subst. split; [split; [exact HRc|exact HI]|exact Hq].
+      inversion H; subst. destruct Hpost as (Hq & HRc). exists a'.
+      assert (Hq' : queue_run o (e ++ [Note NBadReset]) QIdle = Some QIdle) by (rewrite queue_run_app, Hq; reflexivity).
+      split; [rewrite trace_run_app, Htr; reflexivity|].
+      split; [rewrite Hq'; discriminate|]. intros s' Hs. inversion Hs; subst. split; [split; [exact HRc|exact HI]|exact Hq'].
     + destruct (on_error s1 HE2BIG) as [ev so'] eqn:Eoe. inversion H; subst.
       destruct Hpost as ([Hq|Hq] & HRc); apply (Hgen _ _ eq_refl); auto.
     + destruct (on_error s1 HEMSGSIZE) as [ev so'] eqn:Eoe. inversion H; subst.
@@ -759,13 +772,13 @@ Qed.
     recipients accepted (and not withdrawn) since, in order *)
 Theorem handoff_is_open_transaction chunks pre env msg post :
   run_session o chunks = pre ++ Handoff env msg :: post ->
-  exists a f rs, trace_run o pre a_init = Some a /\ a_txn a = Some (f, rs) /\ env = env_of (Some (f, rs)).
+  exists a f rs, trace_run o pre a_init = Some a /\ a_txn a = Some (f, rs) /\ env = env_of (o_liphost o) (Some (f, rs)).
 Proof.
   intros E. destruct (session_trace_ok chunks) as [Ht _]. unfold trace_ok in Ht. rewrite E in Ht.
   destruct (trace_run_prefix pre (Handoff env msg :: post) a_init Ht) as (a & Ha).
   rewrite trace_run_app, Ha in Ht. cbn [trace_run trace_step] in Ht.
   destruct (a_txn a) as [[f rs]|] eqn:Et; [|congruence].
-  destruct (bytes_eqb env (env_of (Some (f, rs)))) eqn:Eb; [|congruence].
+  destruct (bytes_eqb env (env_of (o_liphost o) (Some (f, rs)))) eqn:Eb; [|congruence].
   apply bytes_eqb_eq in Eb. exists a, f, rs. auto.
 Qed.
 
@@ -791,6 +804,36 @@ Proof.
   rewrite queue_run_app in Hq. destruct (queue_run o pre QIdle) as [q|] eqn:Ep; [|congruence].
   cbn [queue_run queue_step] in Hq. destruct q; try congruence.
   destruct (o_qq o k) eqn:Ek; try congruence. exists k. auto.
+Qed.
+
+(** never more than MAXRCPT recipients are stored: a recipient is accepted only below the limit *)
+Theorem rcpt_below_limit chunks pre addr cls post :
+  run_session o chunks = pre ++ Note (NRcpt addr cls) :: post ->
+  exists a, trace_run o pre a_init = Some a /\ a_stored a < MAXRCPT.
+Proof.
+  intros E. destruct (session_trace_ok chunks) as [Ht _]. unfold trace_ok in Ht. rewrite E in Ht.
+  destruct (trace_run_prefix pre _ a_init Ht) as (a & Ha).
+  rewrite trace_run_app, Ha in Ht. cbn [trace_run trace_step] in Ht.
+  exists a. split; [exact Ha|].
+  destruct (a_txn a) as [[f rs]|]; [|congruence].
+  destruct (match f, a_stored a with [], S _ => true | _, _ => false end); [congruence|].
+  destruct (Nat.leb MAXRCPT (a_stored a)) eqn:El; [congruence|]. now apply Nat.leb_gt.
+Qed.
+
+(** MAIL FROM with a SIZE parameter above control/databytes is refused before any data is sent *)
+Theorem mail_size_checked s arg len evs s' : h_from o s arg len = (evs, H0, s') ->
+  o_databytes o = 0%N \/ (thisbytes s' <= o_databytes o)%N.
+Proof.
+  unfold h_from. intros H.
+  destruct (o_addr o false arg) as [| | |addr more cls]; try discriminate.
+  match type of H with context [if ?b then None else more] => destruct (if b then None else more) end; try discriminate.
+  destruct (match more with Some m => o_ext o m | None => Ext_ok 0 0 end) as [tb bonus| |]; try discriminate.
+  destruct (Nat.ltb (CMD_LINE_MAX + bonus) len); try discriminate.
+  destruct (negb (N.eqb (o_databytes o) 0) && N.ltb (o_databytes o) tb) eqn:E; try discriminate.
+  inversion H; subst. cbn.
+  apply andb_false_iff in E as [E|E].
+  - left. apply negb_false_iff in E. now apply N.eqb_eq.
+  - right. now apply N.ltb_ge.
 Qed.
 
 End Proofs.
